@@ -106,7 +106,9 @@ def special(sh):
 
 PLACES = ('pkg', 'eclass', 'glsa', 'top')
 KINDS = ('change', 'add', 'delete')
-ATOMS = [(k, p) for p in PLACES for k in KINDS]
+# one more atom: a new directory next to the first package whose name extends the package's name (string-
+# prefix look-alike) and that gets no Manifest of its own under the ebuild profile (no ebuild, no metadata.xml)
+ATOMS = [(k, p) for p in PLACES for k in KINDS] + [('add', 'lookalike')]
 
 
 def edit_sets(maxn):
@@ -128,6 +130,7 @@ def targets(sh, seed):
     if pk:
         cat, pkg, _c = pk[0]
         t['pkg'] = (f'{cat}/{pkg}', f'{cat}/{pkg}/{pkg}-9.ebuild')
+        t['lookalike'] = (f'{cat}/{pkg}', f'{cat}/{pkg}-extra/README')
     return t
 
 
@@ -147,6 +150,7 @@ def apply_edits(root, sh, seed, edits):
         else:
             existing = os.path.join(root, existing)
         if kind == 'add':
+            os.makedirs(os.path.dirname(os.path.join(root, new)), exist_ok=True)
             with open(os.path.join(root, new), 'wb') as f:
                 f.write(b'added by edit\n')
             continue
@@ -223,7 +227,9 @@ def check_generated(case, root, stats, out):
     # (3)
     s1 = snapshot(root)
     gen_tree = Tree({p: v[1] for p, v in s1.items() if v[0] == 'f'}, dirs={p for p, v in s1.items() if v[0] == 'd'})
-    with seams.write_audit(root) as events:
+    # directory enumeration order is owned by the harness (sorted): the update's result must not depend
+    # on it, and a fixed order keeps every case replayable
+    with seams.write_audit(root) as events, seams.scandir_order(seams.order_sorted):
         r = gem.cli(['update', '-p', 'ebuild', root])
     events = sorted({(e, p[len(root) + 1:]) for e, p in events})
     s2 = snapshot(root)
@@ -260,7 +266,8 @@ def check_edit(case, gen_tree, scratch, stats, out):
         if stats is not None:
             stats.dontcare['(4) an edit atom has no target in this shape'] += 1
         return None
-    r = gem.cli(['update', '-p', 'ebuild', root])
+    with seams.scandir_order(seams.order_sorted):
+        r = gem.cli(['update', '-p', 'ebuild', root])
     if stats is not None:
         stats.evaluations += 1
         stats.transitions += 1
